@@ -79,7 +79,8 @@ def execute_direct(prop, scenario, seed=None, values=None, tier="quick", keep_ev
     res.update(digest=ctx.digest(), sched_digest=ctx.sched_digest(), nsched=ctx.nsched,
                ndeviate=ctx.ndeviate, steps=ctx.steps, probes=dict(ctx.probes),
                faults=dict(ctx.faults), counts=dict(ctx.counts), sample=ctx.sample,
-               nontrivial=bool(ctx.nontrivial), trace=ctx.trace, tape=tape.values_list(),
+               nontrivial=bool(ctx.nontrivial), trace=ctx.trace,
+               sched_trace=ctx.sched_trace[-300:] if keep_events else None, tape=tape.values_list(),
                events=ctx.events if keep_events else None)
     return res
 
